@@ -82,6 +82,8 @@ def locally_unsound_plain_node(e):
     for n in subasts(e):
         if n.op not in PLAIN or n.is_leaf():
             continue
+        if n.op in ("__eq__", "__ne__") and isinstance(n.args[0], claripy.ast.Bool):
+            continue  # Boolean (dis)equality is the backend's own three-valued logic, not an interval transfer function
         try:
             kids = [a for a in n.args if isinstance(a, claripy.ast.Base)]
             A = [gamma_any(vsa(k), getattr(k, "length", None)) for k in kids]
